@@ -176,15 +176,21 @@ def _nontrivial(sig, final):
     return len(final[0]) >= 1 and len(sig) >= 3 and span is not None and span[1] > span[0]
 
 
-def _run_flat(detname, sig, chunks):
+def _run_flat(detname, sig, chunks, midstream=None):
+    """midstream: list collecting chunk_local_index failures observed *between* chunks (the recorder is asked after
+    every chunk, as a consumer that resolves loop indices while the signal is still streaming would do)"""
     det = _new(detname)
     p = 0
-    for length in chunks:
+    for k, length in enumerate(chunks):
         try:
             det.process(np.array(sig[p:p + length], dtype=float))
         except Exception as e:  # noqa: BLE001
             raise Raised(type(e).__name__, str(e)[:200])
         p += length
+        if midstream is not None and detname != "FKMDetector" and not midstream:
+            bad = _check_chunk_local_index(det.recorder, sig[:p], list(chunks[:k + 1]))
+            if bad is not None:
+                midstream.append(dict(bad, asked_after_chunk=k + 1))
     return det
 
 
@@ -210,11 +216,14 @@ def _flat_signal(acc, detname, sig):
     acc.evaluations += 1
     finals = set()
     for comp in compositions(n):
+        mid = []
         try:
-            det = _run_flat(detname, sig, comp)
+            det = _run_flat(detname, sig, comp, mid)
         except Raised as r:
             viol.append(("C01/%s/raises-%s" % (detname, r.args[0]), {"det": detname, "signal": sig, "chunks": comp}, {"error": r.args[1]}))
             continue
+        if mid:
+            viol.append(("C01/%s/chunk_local_index/asked-between-chunks" % detname, {"det": detname, "signal": sig, "chunks": comp}, mid[0]))
         acc.evaluations += len(comp)
         acc.transitions += len(comp)
         acc.max_depth = max(acc.max_depth, len(comp))
@@ -303,10 +312,13 @@ def replay(case):
         return [("C01/chunk_local_index", bad)] if bad else []
     n_done = sum(comp)
     one = _one_piece(detname, sig[:n_done])
+    mid = []
     try:
-        det = _run_flat(detname, sig, comp)
+        det = _run_flat(detname, sig, comp, mid)
     except Raised as r:
         return [("C01/%s/raises-%s" % (detname, r.args[0]), {"error": r.args[1]})]
+    if mid:
+        out.append(("C01/%s/chunk_local_index/asked-between-chunks" % detname, mid[0]))
     obs = _observe(det)
     d = _diff(obs, one)
     if d is not None:
